@@ -28,7 +28,7 @@ def main():
     env.pop("BREEZY_VERIF", None)
     env.pop("VERIF_REPO", None)
     env["PYTHONPATH"] = wt
-    cmd = ["/venv/bin/python", "-m", "pytest", "-q", "-p", "no:cacheprovider", "--timeout=900",
+    cmd = ["/venv/bin/python", "-m", "pytest", "-q", "-p", "no:cacheprovider", "--timeout=300",
            "--continue-on-collection-errors", "-n", n, "--junitxml=" + xml] + rest
     r = subprocess.run(cmd, cwd=wt, env=env, stdout=subprocess.PIPE, stderr=subprocess.STDOUT, text=True)
     tail = r.stdout.strip().splitlines()[-3:]
